@@ -144,3 +144,66 @@ package staking
 //@   requires ctx != nil && tx != nil && stakingState.FeeAmt(tx.Fee) >= 0
 //@   precall state\.AuthenticateAndPayFees$ :: argIs(0, ctx) && argIs(1, api.Signer(ctx)) && argIs(2, tx.Nonce) && argIs(3, tx.Fee)
 //@   note the pre-execution authentication runs with the context's authenticated signer and the transaction's own nonce and fee
+
+// ---- genesis (C05): the recorded total supply equals what the ledger holds after InitChain ----
+
+//@ func Application.initParameters
+//@   trusted
+//@   modifies stakingState.GWrites, abciAPI.GTreeW
+//@   note trusted: stores the consensus parameters (no ledger field)
+
+//@ func Application.initCommonPool
+//@   props C05
+//@   requires ctx != nil && st != nil && totalSupply != nil && stakingState.QV(totalSupply) >= 0 && totalSupply != &st.CommonPool
+//@   modifies totalSupply
+//@   ensures err == nil ==> stakingState.QV(totalSupply) == old(stakingState.QV(totalSupply)) + stakingState.QV(&st.CommonPool) && stakingState.QV(&st.CommonPool) >= 0
+//@   note adds the genesis common pool to the running total and writes NOTHING: the common pool is persisted by initTotalSupply, after initLastBlockFees has moved the genesis block fees into it
+
+//@ func Application.initLastBlockFees
+//@   props C05
+//@   requires ctx != nil && st != nil && totalSupply != nil && stakingState.QV(totalSupply) >= 0 && stakingState.QV(&st.CommonPool) >= 0 && totalSupply != &st.CommonPool && totalSupply != &st.LastBlockFees
+//@   modifies totalSupply, &st.CommonPool, &st.LastBlockFees
+//@   ensures err == nil ==> stakingState.QV(totalSupply) == old(stakingState.QV(totalSupply)) + old(stakingState.QV(&st.LastBlockFees)) && old(stakingState.QV(&st.LastBlockFees)) >= 0
+//@   ensures err == nil ==> stakingState.QV(&st.CommonPool) == old(stakingState.QV(&st.CommonPool)) + old(stakingState.QV(&st.LastBlockFees)) && stakingState.QV(&st.LastBlockFees) == 0
+
+//@ func Application.initGovernanceDeposits
+//@   props C05
+//@   requires ctx != nil && state != nil && st != nil && totalSupply != nil && stakingState.QV(totalSupply) >= 0 && totalSupply != &st.GovernanceDeposits
+//@   modifies totalSupply, stakingState.GGovDep, stakingState.GWrites, abciAPI.GTreeW
+//@   ensures err == nil ==> stakingState.QV(totalSupply) == old(stakingState.QV(totalSupply)) + stakingState.QV(&st.GovernanceDeposits) && stakingState.GGovDep == stakingState.QV(&st.GovernanceDeposits) && stakingState.QV(&st.GovernanceDeposits) >= 0
+
+//@ func Application.initLedger
+//@   props C05
+//@   requires ctx != nil && state != nil && st != nil && totalSupply != nil && stakingState.QV(totalSupply) >= 0 && totalSupply != &st.CommonPool && totalSupply != &st.TotalSupply
+//@   requires forall a staking.Address :: stakingState.StoredSum(a) == 0
+//@   requires forall a staking.Address :: inDom(st.Ledger, a) && st.Ledger[a] != nil ==> totalSupply != &st.Ledger[a].General.Balance && totalSupply != &st.Ledger[a].Escrow.Active.Balance && totalSupply != &st.Ledger[a].Escrow.Debonding.Balance
+//@   ensures err == nil ==> stakingState.QV(totalSupply) - old(stakingState.QV(totalSupply)) == stakingState.GAcctSum - old(stakingState.GAcctSum)
+//@   ensures stakingState.GCommon == old(stakingState.GCommon) && stakingState.GGovDep == old(stakingState.GGovDep) && stakingState.GLastFees == old(stakingState.GLastFees) && stakingState.GSupply == old(stakingState.GSupply)
+//@   ensures stakingState.QV(&st.CommonPool) == old(stakingState.QV(&st.CommonPool)) && stakingState.QV(&st.TotalSupply) == old(stakingState.QV(&st.TotalSupply))
+//@   loop 1 invariant stakingState.QV(totalSupply) >= 0 && stakingState.QV(totalSupply) - old(stakingState.QV(totalSupply)) == stakingState.GAcctSum - old(stakingState.GAcctSum)
+//@   loop 1 invariant forall a staking.Address :: !visited(a) ==> stakingState.StoredSum(a) == 0
+//@   loop 1 invariant stakingState.GCommon == old(stakingState.GCommon) && stakingState.GGovDep == old(stakingState.GGovDep) && stakingState.GLastFees == old(stakingState.GLastFees) && stakingState.GSupply == old(stakingState.GSupply)
+//@   loop 1 invariant stakingState.QV(&st.CommonPool) == old(stakingState.QV(&st.CommonPool)) && stakingState.QV(&st.TotalSupply) == old(stakingState.QV(&st.TotalSupply))
+
+//@ func Application.initTotalSupply
+//@   props C05
+//@   requires ctx != nil && state != nil && st != nil && totalSupply != nil
+//@   modifies stakingState.GCommon, stakingState.GSupply, stakingState.GWrites, abciAPI.GTreeW
+//@   ensures err == nil ==> stakingState.GCommon == stakingState.QV(&st.CommonPool) && stakingState.GSupply == stakingState.QV(totalSupply) && stakingState.QV(totalSupply) == stakingState.QV(&st.TotalSupply)
+
+//@ func Application.initDelegations
+//@   trusted
+//@   modifies stakingState.GDel, stakingState.GDelSum, stakingState.GWrites, abciAPI.GTreeW
+//@   note trusted frame: stores delegations and compares share totals; no balance, pool or supply field is written
+
+//@ func Application.initDebondingDelegations
+//@   trusted
+//@   modifies stakingState.GDeb, stakingState.GDebSum, stakingState.GWrites, abciAPI.GTreeW
+//@   note trusted frame: stores debonding delegations and compares share totals; no balance, pool or supply field is written
+
+//@ func Application.InitChain
+//@   props C05
+//@   requires app != nil && ctx != nil && doc != nil
+//@   requires stakingState.GAcctSum == 0 && stakingState.GCommon == 0 && stakingState.GGovDep == 0 && stakingState.GLastFees == 0 && (forall a staking.Address :: stakingState.StoredSum(a) == 0)
+//@   ensures err == nil ==> stakingState.GSupply == stakingState.Ledger() && stakingState.GSupply == stakingState.QV(&doc.Staking.TotalSupply)
+//@   note on an empty state (the precondition: nothing stored yet), a successful InitChain leaves a state whose recorded total supply equals the sum of all stored balances, the common pool, the governance deposits and the last block fees, and equals the genesis document's declared total supply
